@@ -185,6 +185,17 @@ func c03Structured(c *run.Ctx, idx uint64) {
 		cut = r.Range(1, 6)
 	}
 	b := gen.Stream(r, n, r.Chance(1, 3) && n < 1000, cut)
+	if idx%16 == 5 {
+		// chunk identifiers that repeat or are out of order, some chunks invalid in themselves
+		var a gen.Asm
+		a.Magic()
+		a.MetadataRepeated(r)
+		for k := r.Intn(4); k > 0; k-- {
+			a.Instr(r, false, gen.StylingOpcode(r))
+		}
+		b = a.B
+		c.Count("repeated_metadata_identifiers", 1)
+	}
 	c03Judge(c, b, "structured")
 }
 
